@@ -57,6 +57,39 @@ CHECKS["C13"] = dict(
     note="alphabet-bounded inputs; nestings limited to those that type-check; leaf writer counts its own Stats",
 )
 
+PURE_TECH = ("the function is transcribed into TLA+ ({spec}); TLC enumerates the input vectors (all initial states of "
+             "{gen}); the harness evaluates the real code on each; TLC compares every result with the TLA+ function "
+             "({trace})")
+PURE = {
+    "C15": ("Filter.tla", "Gen_Filter.tla", "Trace_Filter.tla",
+            "TLC checks the boolean laws of tag-expression evaluation over all expressions of depth <= 2 and enumerates "
+            "filter vectors (every such expression as --tags; all presence combinations of name regex / tags / closure); "
+            "each vector runs the real Cucumber::filter_run with a recording Runner, the expression going through "
+            "TagOperation::from_str, and what the runner received is compared with the model.",
+            "one 7-scenario universe with tags on all three levels; regexes realised as alternations of names"),
+    "C16": ("Outline.tla", "Gen_Outline.tla", "Trace_Outline.tla",
+            "outline vectors (placeholder shapes x value classes x table layouts, doc strings, step tables, tagged tables, "
+            "rule outlines, unknown placeholders) are rendered to Gherkin, parsed and expanded by the crate (directly and "
+            "through parser::Basic on a file); names, step texts, doc strings, cells, tags, order, error naming and "
+            "position distinctness are compared with the TLA+ expansion.",
+            "texts are split back into pieces at U+241F separators; Gherkin backslash escapes excluded"),
+    "C17": ("StepMatch.tla", "Gen_StepMatch.tla", "Trace_StepMatch.tla",
+            "the model holds definitions as a SET; TLC's BFS over registration sequences yields every registration order of "
+            "every set (<= 3 quick / <= 4 thorough of a 9-definition pool); each order is registered on a fresh real "
+            "Collection and all 21 (keyword, text) lookups are compared with the order-free model, ambiguity candidate "
+            "sequences being required to be identical across orders of the same set.",
+            "match/capture table cross-checked against the regex crate each run; distinct (keyword, regex, location) keys only"),
+    "C18": ("RetryOpts.tla", "Gen_RetryOpts.tla", "Trace_RetryOpts.tla",
+            "the full product of tag forms on scenario/rule/feature x CLI x builder counts and delays, the tag-filter "
+            "combinations and the concurrency / fail-fast merges (4536 vectors) each drive one real Runner::run; the merged "
+            "CLI seen by the retry_options function, parse_from_tags' result, the Retries on the Started event and the "
+            "hooked limit / fail-fast flag are compared with the TLA+ resolution.",
+            "only the four tag forms the statement names; concurrency/fail-fast observed through the verif hook record"),
+}
+for _pid, (_spec, _gen, _trace, _txt, _note) in PURE.items():
+    CHECKS[_pid] = dict(engine="pure-replay", technique=PURE_TECH.format(spec=_spec, gen=_gen, trace=_trace),
+                        level="model_checking", text=_txt, design_ref=f"DESIGN.md §3 {_pid}", note=_note)
+
 RUNNER_TECH = ("TLA+ model of the executor design (Runner.tla) model-checked by TLC against the property "
                "monitor RunnerObs.tla; the real runner::Basic driven through a gate-controlled test double; "
                "its hooked linearization points validated by TLC against the same monitor (Trace_Runner.tla)")
@@ -115,6 +148,9 @@ def main():
              "serves_properties": ["C01", "C02", "C03", "C04", "C05", "C06", "C07", "C08", "C09", "C10"],
              "kind_free_text": "TLC model checking of Runner.tla against the monitor RunnerObs.tla + driven runs "
                                "of the real runner validated by TLC (Trace_Runner.tla)"},
+            {"name": "pure-replay", "path": "lib/engine_pure.py",
+             "serves_properties": ["C15", "C16", "C17", "C18"],
+             "kind_free_text": "TLC-enumerated vectors of transcribed functions evaluated on the real code and compared by TLC"},
             {"name": "writers-replay", "path": "lib/engine_writers.py",
              "serves_properties": ["C01", "C11", "C12", "C13", "C14"],
              "kind_free_text": "TLC model checking + TLC-generated streams replayed into the real "
